@@ -119,6 +119,32 @@ def want_params(m):
     return o
 
 
+def _text_of(hexname):
+    """A name as text if its octets are UTF-8 (the builders that take strings / paths can then be used), else None."""
+    try:
+        return bytes.fromhex(hexname).decode("utf-8")
+    except UnicodeDecodeError:
+        return None
+
+
+def check_names_as_text(devs, m, want):
+    """Directory messages built through the documented string route (CfdpLv.from_str / DirectoryParams.from_strs): the octets
+    are the UTF-8 encoding of exactly the given text - no normalisation, no stripping."""
+    from spacepackets.cfdp import tlv as T
+    from spacepackets.cfdp.lv import CfdpLv
+
+    if m["k"] not in ("list_req", "list_resp"):
+        return
+    a, b = _text_of(m["path"]), _text_of(m["file"])
+    if a is None or b is None or "\x00" in a + b:
+        return
+    dp = T.DirectoryParams.from_strs(a, b)
+    msg = T.DirectoryListingRequest(dp) if m["k"] == "list_req" else T.DirectoryListingResponse(m["ok"], dp)
+    eq(devs, "from_strs.pack", bytes(msg.pack()), want)
+    eq(devs, "from_str.lv", bytes(CfdpLv.from_str(a).pack()), R.lv(a.encode("utf-8")))
+    eq(devs, "from_strs.as_str", (dp.dir_path_as_str, dp.dir_file_name_as_str), (a, b))
+
+
 def check_msg(m):
     from spacepackets.cfdp import tlv as T
 
@@ -160,7 +186,15 @@ def check_msg(m):
                     eq(devs, f"{tag}.{g}.params", observe_params(k, got), want_params(m))
             else:
                 true(devs, f"{tag}.other_getter_none", got is None, f"{g}() returned {got!r} for a {k} message")
+    check_names_as_text(devs, m, want)
     if k == "put_request":
+        from spacepackets.cfdp.lv import CfdpLv
+        from spacepackets.util import ByteFieldGenerator
+
+        a, b = _text_of(m["src"]), _text_of(m["dst"])
+        if a is not None and b is not None:
+            via_text = T.ProxyPutRequest(T.ProxyPutRequestParams(ByteFieldGenerator.from_int(m["dest_w"], m["dest_id"]), CfdpLv.from_str(a), CfdpLv.from_str(b)))
+            eq(devs, "put_request.names_from_str.pack", bytes(via_text.pack()), want)
         p = T.MessageToUserTlv.unpack(want).to_reserved_msg_tlv().get_proxy_put_request_params()
         for side, attr in (("src", "source_file_as_str"), ("dst", "dest_file_as_str")):
             raw = bytes.fromhex(m[side])
